@@ -208,7 +208,14 @@ class ExporterModel(object):
                 self.active = op['idx']
             return {'ret': ok}
         if o == 'addbp':
-            self.bps.append(dict(op['bp']))
+            how = op.get('how', 'plain')
+            if how == 'clone_active':
+                import copy
+                self.bps.append(copy.deepcopy(self.bps[self.active]))
+            else:
+                self.bps.append(dict(op['bp']))
+                if how == 'twice':
+                    self.bps.append(dict(op['bp'], max=op['bp']['max'] + 1))
             return {'ret': len(self.bps) - 1}
         if o == 'counters':
             return self.counters()
